@@ -632,8 +632,7 @@ where
 
 impl<I: Integer, const N: usize> Hash for Bvf<I, N> {
     fn hash<H: Hasher>(&self, state: &mut H) {
-        self.length.hash(state);
-        for i in 0..Self::capacity_from_bit_len(self.length) {
+        for i in 0..Self::capacity_from_bit_len(self.significant_bits()) {
             self.data[i].hash(state);
         }
     }
